@@ -648,7 +648,23 @@ func (f *Frame) loopWrites(li *loopInfo) (sorts []Sort, all bool, maps bool) {
 				case ssa.CallInstruction:
 					c := x.Common()
 					if c.IsInvoke() {
-						all = true
+						// an interface method with an assumed contract that assigns nothing writes nothing;
+						// error.Error() is pure
+						q := "(" + types.TypeString(c.Value.Type(), nil) + ")." + c.Method.Name()
+						quiet := c.Method.Name() == "Error" && len(c.Args) == 0
+						for _, con := range f.u.W.all {
+							if con.Kind == "extern" && con.Target == q {
+								quiet = true
+								for _, cl := range con.Clauses {
+									if cl.Kind == "assigns" {
+										quiet = false
+									}
+								}
+							}
+						}
+						if !quiet {
+							all = true
+						}
 						continue
 					}
 					switch cal := c.Value.(type) {
